@@ -130,15 +130,16 @@ type Engine struct {
 	dec9 decision9
 
 	// statistics
-	fp        uint64
-	simNanos  int64
-	startT    time.Time
-	abort     string
-	nClock    int
-	nQuiesce  int
-	lastOrd   int
-	lastSite  int
-	gateCount [3]int
+	fp                                uint64
+	simNanos                          int64
+	startT                            time.Time
+	abort                             string
+	nClock                            int
+	nAfterUnlock, nPreemptAfterUnlock int
+	nQuiesce                          int
+	lastOrd                           int
+	lastSite                          int
+	gateCount                         [3]int
 }
 
 type decision9 struct {
@@ -803,6 +804,12 @@ func (e *Engine) release(t *core.Task) {
 	e.fp = (e.fp ^ uint64(t.Ord*131+t.Site*7+gate)) * 0x100000001b3
 	if e.lastOrd != t.Ord {
 		notePair(e.lastSite, t.Site)
+	}
+	if t.Site == core.SiteAfterUnlock {
+		e.nAfterUnlock++
+		if e.lastOrd != t.Ord {
+			e.nPreemptAfterUnlock++ // another task ran between the unlock and the code after it
+		}
 	}
 	e.sim.Release(t, gate)
 	if atomic.LoadInt32(&e.sim.Notifies) != 0 {
